@@ -433,6 +433,17 @@ pub fn filler(k: usize, salt: usize) -> Vec<u8> {
         .collect()
 }
 
+/// Sample names of a generated set: deliberately not in sorted order and with punctuation that is
+/// legal in a name (no white space, no leading '-'): a comma, a dot, '=', '#'.
+pub fn set_sample_name(i: usize) -> String {
+    const NAMES: [&str; 10] = ["s0", "iso_B,rep2", "x.1", "A-b", "z9", "k=5", "Q", "m#7", "s10", "s2"];
+    if i < NAMES.len() {
+        NAMES[i].to_string()
+    } else {
+        format!("n{}_{i}", (i * 7) % 10)
+    }
+}
+
 /// materialise; every sample is guaranteed >= 1 window (a filler record is appended if not)
 pub fn materialise_set(c: &SetCase) -> (Vec<Vec<u8>>, Vec<(String, Vec<Vec<u8>>)>) {
     let (anc, samples) = materialise_samples(&c.anc, &c.samples, c.k);
@@ -441,7 +452,7 @@ pub fn materialise_set(c: &SetCase) -> (Vec<Vec<u8>>, Vec<(String, Vec<Vec<u8>>)
         if recs.iter().all(|r| crate::model::windows(r, c.k).is_empty()) {
             recs.push(filler(c.k, i));
         }
-        out.push((format!("s{i}"), recs));
+        out.push((set_sample_name(i), recs));
     }
     (anc, out)
 }
